@@ -253,7 +253,7 @@ def run_proof(proof, workroot, mutate=None, keep=False, quiet=False):
         with open(os.path.join(cwd, impl_name), 'w') as f:
             f.write(body)
             f.write('\nextern "C" void %s(void);\nint main() { %s(); return 0; }\n' % (proof.harness, proof.harness))
-        incs = ['-I', os.path.join(VERIF, 'env'), '-I', os.path.join(VERIF, 'contracts'), '-I', os.path.join(VERIF, os.path.dirname(proof.impl)),
+        incs = ['-I', os.path.join(VERIF, 'env'), '-I', os.path.join(VERIF, 'contracts'), '-I', os.path.join(VERIF, 'contracts', 'shared'), '-I', os.path.join(VERIF, os.path.dirname(proof.impl)),
                 '-I', cwd, '-I', os.path.join(workroot, 'gen'), '-I', os.path.join(REPO, 'src')]
         defs = ['-DVERIF_CBMC=1'] + ['-D' + d for d in proof.defines]
         rc, out, err, _ = run(['goto-cc', '-std=c++11'] + incs + defs + [impl_name, '-o', 'impl.gb'], cwd, 600, log=log)
